@@ -145,9 +145,28 @@ MUTATING_METHODS = {"append", "extend", "insert", "pop", "remove", "clear", "add
                     "truncate", "appendleft", "popleft"}
 
 
+def _attr_chain(node):
+    """name.a.b -> ("name", ["a", "b"]) or None."""
+    parts = []
+    while isinstance(node, (ast.Attribute, ast.Subscript)):
+        if isinstance(node, ast.Attribute):
+            parts.append(node.attr)
+        else:
+            parts.append("[]")
+        node = node.value
+    if isinstance(node, ast.Name):
+        return node.id, list(reversed(parts))
+    return None
+
+
 def assigned_names(nodes):
-    """(rebound names, names whose referenced heap object is mutated) in a list of statements."""
-    rebound, mutated, calls = set(), set(), []
+    """(rebound names, names whose referenced heap object is mutated, call nodes) in statements.
+    The second component is a dict name -> set of effects: "*" (anything reachable), "f" (field f
+    rebound), "f.*" (object under field f mutated), ("call", m) (method m called on it)."""
+    rebound, mutated, calls = set(), {}, []
+
+    def mut(name, eff):
+        mutated.setdefault(name, set()).add(eff)
 
     def tgt(t):
         if isinstance(t, ast.Name):
@@ -158,11 +177,15 @@ def assigned_names(nodes):
         elif isinstance(t, ast.Starred):
             tgt(t.value)
         elif isinstance(t, (ast.Subscript, ast.Attribute)):
-            b = t.value
-            while isinstance(b, (ast.Subscript, ast.Attribute)):
-                b = b.value
-            if isinstance(b, ast.Name):
-                mutated.add(b.id)
+            ch = _attr_chain(t)
+            if ch:
+                name, parts = ch
+                if len(parts) == 1 and parts[0] != "[]":
+                    mut(name, parts[0])
+                elif parts and parts[0] != "[]":
+                    mut(name, parts[0] + ".*")
+                else:
+                    mut(name, "*")
 
     def walk(n):
         if isinstance(n, (ast.FunctionDef, ast.AsyncFunctionDef, ast.ClassDef, ast.Lambda)):
@@ -192,22 +215,29 @@ def assigned_names(nodes):
             calls.append(n)
             f = n.func
             if isinstance(f, ast.Attribute):
-                b = f.value
-                while isinstance(b, (ast.Subscript, ast.Attribute)):
-                    b = b.value
-                if isinstance(b, ast.Name):
-                    mutated.add(b.id)      # conservative: any method call may mutate its receiver
+                ch = _attr_chain(f.value)
+                if ch:
+                    name, parts = ch
+                    if not parts:
+                        mut(name, ("call", f.attr))
+                    elif parts[0] != "[]":
+                        mut(name, parts[0] + ".*")
+                    else:
+                        mut(name, "*")
             for a in list(n.args) + [k.value for k in n.keywords]:
-                if isinstance(a, ast.Name):
-                    mutated.add(a.id)      # conservative: a callee may mutate a mutable argument
+                ch = _attr_chain(a)
+                if ch:
+                    name, parts = ch
+                    if not parts:
+                        mut(name, "*")       # a callee may mutate a mutable argument
+                    elif parts[0] != "[]":
+                        mut(name, parts[0] + ".*")
         for ch in ast.iter_child_nodes(n):
             walk(ch)
 
     for s in nodes:
         walk(s)
     return rebound, mutated, calls
-
-
 
 
 def _walk_no_defs(fn):
